@@ -73,7 +73,7 @@ func snapshotExpect(ops []AuthOp) string {
 	for _, f := range dedupFacts(facts) {
 		fs = append(fs, f.FactSxRaw())
 	}
-	return "ok " + sxList("facts", fs) + " " + sxList("rules", rules) + " " + sxList("checks", checks) + " " + sxList("policies", pols) + " reenc=same"
+	return "ok " + canonContent(sxList("facts", fs)+" "+sxList("rules", rules)+" "+sxList("checks", checks)+" "+sxList("policies", pols)) + " reenc=same"
 }
 
 // emitAuth executes one AUTHSEQ case on the library and records it for the model.
@@ -485,12 +485,61 @@ func variantBlock(r *Rng, b Block, ren map[string]string) Block {
 }
 
 func runC12(c *Ctx) {
-	c.Rule = "for each base scenario in the error-free fragment, k presentation variants: permuted facts / rules / checks / queries-in-check in every block and in the authorizer (policies keep their order), consistent variable renamings (including names colliding with string symbols), a duplicated fact, and a second Authorize on the same authorizer; verdict class, number of failed checks and Query result sets must agree across variants. Non-trivial = the base has at least two facts or rules in some scope and at least one check or policy; distinct = distinct canonical encodings of the variants."
+	c.Rule = "for each base scenario in the error-free fragment, k presentation variants: permuted facts / rules / checks / queries-in-check in every block and in the authorizer (policies keep their order), consistent variable renamings (including names colliding with string symbols), a duplicated fact, and a second Authorize on the same authorizer; (sets) one set written in two ways (repeats, order) carried by two facts supplied in either order and observed through length / intersection / union / equality / contains; verdict class, number of failed checks and Query result sets must agree across variants. Non-trivial = the base has at least two facts or rules in some scope and at least one check or policy; distinct = distinct canonical encodings of the variants."
 	r := NewRng(c.Seed)
 	n := 1200
 	k := 4
 	if c.Thorough {
 		n, k = 15000, 8
+	}
+	// (sets) one set written in two ways (repeated elements, element order) carried by two
+	// facts supplied in either order, observed through every set operator: the outcome must
+	// not depend on which was supplied first (finding D19)
+	writings := [][2]Term{
+		{SetOf(I(1), I(1), I(2)), SetOf(I(1), I(2), I(2))},
+		{SetOf(I(1), I(2)), SetOf(I(2), I(1), I(1))},
+		{SetOf(S("bob"), S("alice"), S("bob")), SetOf(S("alice"), S("bob"))},
+		{SetOf(B([]byte{1}), B([]byte{1}), B([]byte{2})), SetOf(B([]byte{2}), B([]byte{1}))},
+	}
+	mvar := Op{K: 'v', T: V("m")}
+	for wi, w := range writings {
+		probe := w[0].Set[0]
+		exprs := []Expr{
+			{mvar, {K: 'u', U: "len"}, {K: 'v', T: I(2)}, {K: 'b', B: "eq"}},
+			{mvar, {K: 'u', U: "len"}, {K: 'v', T: I(3)}, {K: 'b', B: "eq"}},
+			{mvar, {K: 'v', T: SetOf(probe)}, {K: 'b', B: "intersection"}, {K: 'u', U: "len"}, {K: 'v', T: I(1)}, {K: 'b', B: "eq"}},
+			{mvar, {K: 'v', T: SetOf(probe)}, {K: 'b', B: "intersection"}, {K: 'u', U: "len"}, {K: 'v', T: I(2)}, {K: 'b', B: "eq"}},
+			{mvar, {K: 'v', T: SetOf(probe)}, {K: 'b', B: "union"}, {K: 'u', U: "len"}, {K: 'v', T: I(2)}, {K: 'b', B: "eq"}},
+			{mvar, {K: 'v', T: w[1]}, {K: 'b', B: "eq"}},
+			{mvar, {K: 'v', T: probe}, {K: 'b', B: "contains"}},
+		}
+		for ei, e := range exprs {
+			for where := 0; where < 2; where++ { // facts in the authorizer / in the authority block
+				var outs [2]string
+				var sxs [2]string
+				for ord := 0; ord < 2; ord++ {
+					f1 := Pred{Name: "members", Terms: []Term{w[ord]}}
+					f2 := Pred{Name: "members", Terms: []Term{w[1-ord]}}
+					ck := Check{Queries: []Rule{{Head: Pred{Name: "query"}, Body: []Pred{{Name: "members", Terms: []Term{V("m")}}}, Exprs: []Expr{e}}}}
+					ac := AuthCase{MaxFacts: 1000, MaxIter: 100, Ctor: "for"}
+					if where == 0 {
+						ac.Tokens = [][]Block{{{}}}
+						ac.Ops = []AuthOp{{K: "addfact", Fact: f1}, {K: "addfact", Fact: f2}}
+					} else {
+						ac.Tokens = [][]Block{{{Facts: []Pred{f1, f2}}}}
+					}
+					ac.Ops = append(ac.Ops, AuthOp{K: "addcheck", Check: ck}, AuthOp{K: "addpolicy", Policy: Policy{Allow: true, Queries: []Rule{{Head: Pred{Name: "query"}, Exprs: []Expr{{{K: 'v', T: O(true)}}}}}}},
+						AuthOp{K: "authorize"}, AuthOp{K: "query", Rule: Rule{Head: Pred{Name: "got", Terms: []Term{V("m")}}, Body: []Pred{{Name: "members", Terms: []Term{V("m")}}}}})
+					outs[ord], sxs[ord] = emitAuth(c, "sets", ac)
+					c.NonTrivial(sxs[ord])
+				}
+				c.Count("sets-stream")
+				if outs[0] != outs[1] {
+					c.Violate(fmt.Sprintf("C12/set-writing-order:%d:%d", wi, ei), "two facts carrying the same set, written differently, give different outcomes depending on which is supplied first: "+outs[0]+" vs "+outs[1],
+						map[string]interface{}{"verb": "AUTHSEQ", "case": sxs[0], "go": outs[0], "base_case": sxs[1], "base_go": outs[1]})
+				}
+			}
+		}
 	}
 	for i := 0; i < n; i++ {
 		g := newScenGen(r, r.Intn(2))
